@@ -98,7 +98,6 @@ class Scheduler:
         LOGGER.debug("Scheduler starting up...")
 
         while self.status is SchedulerStatus.RUNNING:
-            self.events = []
             if self.env.now % 1000 == 0:
                 LOGGER.debug('Time on Scheduler: {0}'.format(self.env.now))
                 LOGGER.debug("Scheduler Status: %s", self.status)
